@@ -15,13 +15,17 @@ pub mod c09;
 pub mod c10;
 pub mod c11;
 pub mod c12;
+pub mod c13;
+pub mod c14;
+pub mod c15;
 pub mod c16;
 pub mod c17;
 pub mod c18;
 pub mod c19;
+pub mod c20;
 
 pub fn ids() -> Vec<&'static str> {
-    vec!["C01", "C02", "C03", "C04", "C05", "C06", "C07", "C08", "C09", "C10", "C11", "C12", "C16", "C17", "C18", "C19"]
+    vec!["C01", "C02", "C03", "C04", "C05", "C06", "C07", "C08", "C09", "C10", "C11", "C12", "C13", "C14", "C15", "C16", "C17", "C18", "C19", "C20"]
 }
 
 pub fn get(id: &str) -> Option<CheckDef> {
@@ -38,10 +42,14 @@ pub fn get(id: &str) -> Option<CheckDef> {
         "C10" => c10::def(),
         "C11" => c11::def(),
         "C12" => c12::def(),
+        "C13" => c13::def(),
+        "C14" => c14::def(),
+        "C15" => c15::def(),
         "C16" => c16::def(),
         "C17" => c17::def(),
         "C18" => c18::def(),
         "C19" => c19::def(),
+        "C20" => c20::def(),
         _ => return None,
     })
 }
